@@ -916,6 +916,81 @@ func (d *Driver) judgeC09() {
 			}
 		}
 	}
+	// DeleteKey by an instance that no longer led when the call came but still owned the live
+	// record - written and refreshed by a term of its own that ended without the record being
+	// released: an earlier stop call that gave up (time-out, caller's context), a demotion that
+	// leaves the record to run out. "With DeleteKey set and the instance the record's owner, the
+	// record is gone when StopWithContext returns."
+	for _, a := range d.h.Apis {
+		if a.Kind != AStopCtx || !a.Act.DeleteKey || a.TRet < 0 || a.Err != nil || a.WasLeaderAtInv || !a.OwnerAtInv || a.SRet >= d.endStep {
+			continue
+		}
+		in := d.inst(a.Inst)
+		alone := true
+		for _, b := range d.h.Apis {
+			if b != a && b.Inst == a.Inst && b.Gen == a.Gen && (b.Kind == AStop || b.Kind == AStopCtx || b.Kind == AStart) && b.SInv <= a.SRet && (b.TRet < 0 || b.SRet >= a.SInv) {
+				alone = false
+			}
+		}
+		// the record the instance owned when the call came: one that a term of its own had led on
+		// (its write acknowledged and the promotion made before the call; the other case - an
+		// acquisition still in flight - is the next clause's)
+		var rec *Version
+		for _, v := range d.store.All {
+			if v.Key == in.cfg.Group && v.Op == opPut && v.Writer == a.Inst && v.Gen == a.Gen {
+				e, _ := v.EndAt(d.store.MaxAge)
+				if v.At <= a.TInv && (e < 0 || e > a.TInv) {
+					rec = v
+				}
+			}
+		}
+		if rec == nil || !alone {
+			continue
+		}
+		led := false
+		how := ""
+		for _, x := range d.terms() {
+			if x.Inst == a.Inst && x.Gen == a.Gen && x.Token != "" && rec.P.OK && rec.P.Token == x.Token && x.Fall != nil && x.SEnd < a.SInv {
+				led = true
+				switch {
+				case !stopStack(x.EndStack):
+					how = "after-demotion"
+				case d.stopFailed(x.Fall, d.obj(a.Inst, a.Gen)):
+					how = "after-stop-call-that-gave-up"
+				default:
+					how = "after-stop"
+				}
+			}
+		}
+		if !led {
+			continue
+		}
+		d.judgedInc("C09")
+		faulted := false
+		to := stopBudget(a.Act)
+		for _, op := range d.h.Ops {
+			if op.Inst == a.Inst && op.Gen == a.Gen && (op.Kind == "delete" || op.Kind == "get") && strings.HasPrefix(op.Caller, "StopWithContext") && op.SInvoke >= a.SInv && op.SInvoke <= a.SRet {
+				if op.Fault != "" || !op.Applied || op.TRet < 0 || op.TRet > a.TInv+to-time.Millisecond {
+					faulted = true
+				}
+			}
+		}
+		if faulted || a.TRet >= a.TInv+to-time.Millisecond {
+			d.skip("C09", "deletekey-delete-faulted")
+			continue
+		}
+		// still there when the call returned (that version, or a later refresh of the same term
+		// that was in flight and applied meanwhile)
+		for _, v := range d.store.All {
+			if v.Key == in.cfg.Group && v.Op == opPut && v.Writer == a.Inst && v.Gen == a.Gen && v.P.OK && v.P.Token == rec.P.Token {
+				e, _ := v.EndAt(d.store.MaxAge)
+				if v.At <= a.TRet && (e < 0 || e > a.TRet) {
+					d.h.violate("C09", "deletekey-record-of-ended-term-left-behind/"+how, fmt.Sprintf("i%d StopWithContext(DeleteKey) [%v,%v] returned success; the instance did not lead any more (its term had been ended at an earlier moment without releasing the record) but still owned the live record (its id and that term's token): seq=%d is still live", a.Inst, a.TInv, a.TRet, v.Seq), a.TRet, a.SRet)
+					break
+				}
+			}
+		}
+	}
 	// DeleteKey by an instance that was not (yet) leader when the call came, but whose acquisition
 	// wrote the record while the call was under way and was told so before the call returned: the
 	// instance is the record's owner, the call succeeded, the record must be gone.
